@@ -279,8 +279,19 @@ func genM3U8(r *rand.Rand, t *tokGen) (body []byte, uris []plantedURI, kind stri
 		if r.Intn(2) == 0 { // a rendition group must be referenced by the variants that use it
 			subs = `,SUBTITLES="sub"`
 		}
+		// a rendition without URI (audio muxed into the variants) is legal and says nothing about its neighbours
+		muxed := func(name string) {
+			if r.Intn(3) == 0 {
+				fmt.Fprintf(&b, "#EXT-X-MEDIA:TYPE=AUDIO,GROUP-ID=\"aud\",NAME=\"%s\",AUTOSELECT=YES\n", name)
+			}
+		}
+		muxed("muxed-first")
 		if r.Intn(2) == 0 {
 			fmt.Fprintf(&b, "#EXT-X-MEDIA:TYPE=AUDIO,GROUP-ID=\"aud\",NAME=\"en\",DEFAULT=YES,URI=\"%s\"\n", ref("alternative-before", "m3u8"))
+		}
+		muxed("muxed-middle")
+		if r.Intn(3) == 0 {
+			fmt.Fprintf(&b, "#EXT-X-MEDIA:TYPE=AUDIO,GROUP-ID=\"aud\",NAME=\"de\",URI=\"%s\"\n", ref("alternative-before", "m3u8"))
 		}
 		for i := 0; i < nv; i++ {
 			fmt.Fprintf(&b, "#EXT-X-STREAM-INF:PROGRAM-ID=1,BANDWIDTH=%d,AUDIO=\"aud\"%s\n%s\n", 100000*(i+1), subs, ref("variant", "m3u8"))
